@@ -621,8 +621,11 @@ class StmtMixin(object):
         env.set(ghost, k)
         self.path.assume(k == length)
         self.assume_invariants(spec, env)
-        # python leaves the loop variable at the last element; only used if length > 0
-        self.poison_assigned([ast.Assign(targets=[node.target], value=ast.Constant(0))], env, "loop variable after a cut loop")
+        # python leaves the loop variable at the last element (unbound if there was none)
+        if self.path.choose(simp(length >= 1)):
+            self.assign(node.target, elem(simp(length - 1)), env)
+        else:
+            self.poison_assigned([ast.Assign(targets=[node.target], value=ast.Constant(0))], env, "loop variable of an empty loop")
         self.exec_block(node.orelse, env)
 
 
